@@ -20,6 +20,8 @@ struct BFut {
     waker: Arc<Mutex<Option<Waker>>>,
     /// the future itself asks the loop to stop during its n-th poll
     stop_in_poll: Option<(calloop::LoopSignal, u32)>,
+    /// microseconds spent inside every poll after the first (wakes from other threads land inside the poll)
+    dawdle_us: u64,
 }
 
 impl Future for BFut {
@@ -28,6 +30,12 @@ impl Future for BFut {
         let n = self.polls.fetch_add(1, Ordering::SeqCst) + 1;
         hookrec::record(H_POLL, 1, n as u64);
         *self.waker.lock().unwrap() = Some(cx.waker().clone());
+        if self.dawdle_us > 0 && n >= 2 && n < 8 && !cfg!(miri) {
+            let t = Instant::now();
+            while t.elapsed() < Duration::from_micros(self.dawdle_us) {
+                std::hint::spin_loop();
+            }
+        }
         if let Some((sig, at)) = &self.stop_in_poll {
             if n == *at {
                 hookrec::record(H_STOP_BEGIN, 1, 0);
@@ -253,10 +261,27 @@ fn run_stop(c: &SchedCase) -> ExecOutcome {
     let mut all: Vec<Vec<Rec>> = Vec::new();
     let mut rescue = false;
     if c.case % 3 == 1 {
-        // the loop has a history: a block_on that was ended by a stop request. The run() that follows must
-        // not inherit that request.
+        // the loop has a history: a block_on that was ended by a stop request issued by its own future during
+        // the first poll. It must return None, and the run() that follows must not inherit that request.
         let sig0 = sig.clone();
         let mut first = true;
+        let pre_done = Arc::new(AtomicBool::new(false));
+        let pre_done2 = pre_done.clone();
+        let sig_w = sig.clone();
+        let ltid0 = loop_tid.load(Ordering::SeqCst);
+        let wd = std::thread::spawn(move || {
+            let t = Instant::now();
+            while !pre_done2.load(Ordering::SeqCst) {
+                if t.elapsed() > Duration::from_secs(2) {
+                    let parked = loop_parked(ltid0, epfd);
+                    sig_w.stop();
+                    sig_w.wakeup();
+                    return Some(parked);
+                }
+                std::thread::sleep(Duration::from_millis(1));
+            }
+            None
+        });
         let r = el.block_on(
             std::future::poll_fn(move |_| {
                 if first {
@@ -269,8 +294,15 @@ fn run_stop(c: &SchedCase) -> ExecOutcome {
             &mut iters,
             |_| {},
         );
-        if !matches!(r, Ok(None)) {
-            o.alarm("none_iff_stopped_first", "stopped-block_on-did-not-return-none", format!("a block_on whose future requested stop() returned {:?}", r.map(|x| x.is_some())));
+        pre_done.store(true, Ordering::SeqCst);
+        match wd.join().unwrap_or(None) {
+            Some(true) => o.alarm("none_iff_stopped_first", "stop-during-first-poll-lost-loop-parked", "a future called stop()+wakeup() during its first poll, yet block_on sat parked in epoll_wait for 2 s".into()),
+            Some(false) => o.inconclusive.push("block_on did not return within 2 s after its future requested stop, loop not parked".into()),
+            None => {
+                if !matches!(r, Ok(None)) {
+                    o.alarm("none_iff_stopped_first", "stopped-block_on-did-not-return-none", format!("a block_on whose future requested stop() returned {:?}", r.map(|x| x.is_some())));
+                }
+            }
         }
         o.cov("run-after-stopped-block_on");
         // the ping that announces the start may have been consumed by that block_on: renew it
@@ -398,11 +430,16 @@ fn run_block_on(c: &SchedCase) -> ExecOutcome {
     let done_after = if stop_instead { 1_000_000 } else { rng.range(1, total_wakes as u64 + 1) as u32 };
     // one case in four: the stop request comes from the future itself, during its first or second poll
     let stop_from_poll = stop_instead && c.case % 4 == 0;
-    let fut = BFut { polls: polls.clone(), done_after, waker: waker.clone(), stop_in_poll: if stop_from_poll { Some((sig.clone(), 1 + (c.case / 4 % 2) as u32)) } else { None } };
+    let fut = BFut { polls: polls.clone(), done_after, waker: waker.clone(), stop_in_poll: if stop_from_poll { Some((sig.clone(), 1 + (c.case / 4 % 2) as u32)) } else { None }, dawdle_us: if c.case % 2 == 1 { rng.range(100, 800) } else { 0 } };
     let seed = c.seed ^ c.case;
     let returned = Arc::new(AtomicBool::new(false));
     let loop_tid = sysx::gettid();
-    hookrec::begin(&c.plan);
+    let mut plan = c.plan.clone();
+    if c.case % 2 == 0 {
+        // a long delay right after the flag was taken, at the second to fourth poll: wakes land inside it
+        plan.long.push((Site::BoSwapPost as u16, rng.range(1, 3) as u32, rng.range(300, 1500) as u32));
+    }
+    hookrec::begin(&plan);
     let mut all: Vec<Vec<Rec>> = Vec::new();
     let mut iters = 0u64;
     let mut out: Option<u32> = None;
